@@ -133,6 +133,32 @@ impl Property for C16 {
         let mut xot = Xot::new();
         let mut hs = vec![];
         let mut doc = doc;
+        if src.ratio(1, 12) {
+            // a deep chain of element-only wrappers around the (first) element: indentation levels
+            // well beyond anything a fixed-size buffer or a small counter would hold
+            let depth = 17 + src.choice(30);
+            fn wrap_first_element(n: &mut ANode, depth: usize) -> bool {
+                if let ANode::Element(_) = n {
+                    let mut inner = std::mem::replace(n, ANode::Text(String::new()));
+                    for _ in 0..depth {
+                        inner = ANode::Element(crate::model::AElem { name: QName::new("", "w"), decls: vec![], attrs: vec![], children: vec![inner] });
+                    }
+                    *n = inner;
+                    return true;
+                }
+                if let Some(ch) = n.children_mut() {
+                    for c in ch.iter_mut() {
+                        if wrap_first_element(c, depth) {
+                            return true;
+                        }
+                    }
+                }
+                false
+            }
+            if wrap_first_element(&mut doc, depth) {
+                ctx.label("deep_chain");
+            }
+        }
         if src.ratio(1, 4) {
             // API-only layout: no-namespace elements below a default namespace without xmlns=""
             // (the serializer writes one on the fly: strings, tokens and events must still agree)
@@ -165,7 +191,14 @@ impl Property for C16 {
             if text_beside {
                 continue; // consolidation would merge it away
             }
-            let t = xot.new_text("");
+            // an empty text node, or (API-only as well) a processing instruction whose data is Some("")
+            let as_pi = src.ratio(1, 3);
+            let t = if as_pi {
+                let id = xot.add_name("pi");
+                xot.new_processing_instruction(id, Some(""))
+            } else {
+                xot.new_text("")
+            };
             let r = if at == ch.len() {
                 xot.append(x, t)
             } else {
@@ -173,9 +206,9 @@ impl Property for C16 {
                 xot.insert_before(before, t)
             };
             if let Err(e) = r {
-                return Verdict::Fail(format!("harness: inserting an empty text node: {}", e));
+                return Verdict::Fail(format!("harness: inserting an empty text node / PI: {}", e));
             }
-            ch.insert(at, ANode::Text(String::new()));
+            ch.insert(at, if as_pi { ANode::PI("pi".into(), Some(String::new())) } else { ANode::Text(String::new()) });
             empties += 1;
         }
         if empties > 0 {
